@@ -19,6 +19,14 @@ import gen  # noqa: E402
 
 def main():
     seed, k, perm_seed, container = int(sys.argv[1]), int(sys.argv[2]), int(sys.argv[3]), sys.argv[4]
+    scale = float(os.environ.get("C15_CLOCK_SCALE", "1"))
+    if scale != 1.0:
+        # this process sees time pass `scale` times faster (a slow machine, a profiler): what is generated must not depend on it
+        import time as _time
+        for nm in ("monotonic", "perf_counter", "time", "process_time"):
+            real = getattr(_time, nm)
+            base = real()
+            setattr(_time, nm, (lambda real=real, base=base: base + (real() - base) * scale))
     rng = random.Random(f"C15:{seed}:{k}")
     d = gen.gen_definition(rng, n_state=rng.choice([2, 3, 4]), n_control=rng.choice([0, 1, 2]), n_calib=rng.choice([0, 1, 2]),
                            n_sensors=rng.choice([1, 2, 3]), depth=2)
@@ -40,6 +48,10 @@ def main():
         extra = gen.fresh_names(rng, 4, taken)
         d.control = list(d.control) + [gen.Symbol(extra[0]), gen.Symbol(extra[1])]
         d.calibration = list(d.calibration) + [gen.Symbol(extra[2]), gen.Symbol(extra[3])]
+    if k % 4 == 1 and d.sensors:
+        # a sensor key that is not a C++ identifier (keys are free-form strings on the Python side)
+        first = sorted(d.sensors)[0]
+        d.sensors = {("wheel-speed" if kk == first else kk): vv for kk, vv in d.sensors.items()}
     d._kind = "ekf"
     if k % 2 == 1:
         # names that differ only in case (sorting must still be a total order on them)
@@ -78,7 +90,7 @@ def main():
     for key, rd in sn:
         r = list(rd.items()); prng.shuffle(r); sensor[key] = dict(r)
     scratch = tempfile.mkdtemp(prefix="c15w_")
-    out = {"hashseed": os.environ.get("PYTHONHASHSEED"), "perm": perm_seed, "container": container}
+    out = {"hashseed": os.environ.get("PYTHONHASHSEED"), "perm": perm_seed, "container": container, "clock_scale": scale}
     try:
         if perm_seed % 2 == 1:
             # another definition generated BEFORE this one in the same process, spelling equal noise values as ints
